@@ -25,7 +25,7 @@ from typing import Any, Optional
 
 from vlib import common, simloop
 from vlib.common import KResult, Violation, Disagreement, Property
-from vlib.connharness import (GatedNet, make_settings, start_network, fire_timer, fire_wait_timeout,
+from vlib.connharness import (GatedNet, SiteAudit, make_settings, start_network, fire_timer, fire_wait_timeout,
                               SERVER_ADDR, CLEAR_PORT)
 from vlib.simloop import settle
 from props import c10 as _c10
@@ -63,6 +63,7 @@ def _run_impl(case: dict) -> dict:
             signal.setitimer(signal.ITIMER_REAL, _c10.HANG_S)
         except ValueError:
             pass
+        audit = SiteAudit(loop)
         fn = GatedNet().install()
         try:
             mode, lookup, srv_fail = case['mode'], case['lookup'], case['srvFail']
@@ -125,15 +126,51 @@ def _run_impl(case: dict) -> dict:
                     return srv_open()
                 if name == 'indirectTimeout':
                     t = indirect_task()
-                    return t is not None and not t.done() and _wait_parked(t)
+                    return t is not None and not t.done() and _indirect_parked(t)
                 if name == 'cancelRequest':
                     return not req.done()
                 raise ValueError(name)
 
-            def _wait_parked(t):
+            def _indirect_parked(t):
+                """the indirect attempt waits for the peer / the server (not inside the ConnectToPeer send)"""
                 from vlib.connharness import _frames_of
                 names = [n for n, _ in _frames_of(t)]
-                return '_make_indirect_connection' in names and names[-1] in ('_wait', 'wait')
+                return ('_make_indirect_connection' in names
+                        and 'send_message' not in names[names.index('_make_indirect_connection'):])
+
+            def let_indirect_time_out():
+                """"Nothing arrives within PEER_INDIRECT_CONNECT_TIMEOUT" — however the code implements the wait.
+                When no other timer is due in that period the virtual clock simply jumps over it; otherwise (race mode,
+                the direct attempt still has its connect timer) exactly the timers of the indirect attempt are made due."""
+                import asyncio.timeouts as _at
+                from aioslsk.constants import PEER_INDIRECT_CONNECT_TIMEOUT
+                t = indirect_task()
+                now = loop.time()
+                horizon = now + PEER_INDIRECT_CONNECT_TIMEOUT + 0.001
+                mine, foreign = [], []
+                for h in list(loop._scheduled):
+                    if h._cancelled or h._when > horizon:
+                        continue
+                    cb = h._callback
+                    owner = getattr(cb, '__self__', None)
+                    if (getattr(cb, '__name__', '') == '_release_waiter' and h._args
+                            and h._args[0] is getattr(t, '_fut_waiter', None)):
+                        mine.append(('wait', h))
+                    elif isinstance(owner, _at.Timeout) and getattr(owner, '_task', None) is t:
+                        mine.append(('timeout', owner))
+                    else:
+                        foreign.append(h)
+                if not foreign:
+                    loop._vt = horizon
+                    return
+                for kind, x in mine:
+                    if kind == 'wait':
+                        args = tuple(x._args)
+                        cb = x._callback
+                        x.cancel()
+                        loop.call_soon(cb, *args)
+                    else:
+                        x.reschedule(now)
 
             def do_op(name, arg):
                 if name == 'addrReply':
@@ -162,7 +199,7 @@ def _run_impl(case: dict) -> dict:
                 elif name == 'cannotConnect':
                     server.send(CannotConnect.Response(TICKET))
                 elif name == 'indirectTimeout':
-                    assert fire_wait_timeout(loop, indirect_task(), '_make_indirect_connection')
+                    let_indirect_time_out()
                 elif name == 'cancelRequest':
                     req.cancel()
 
@@ -217,7 +254,12 @@ def _run_impl(case: dict) -> dict:
                         f"ctp={ctp} init={init_ok}")
                 if extra_t:
                     line += f' EXTRA_TICKETS={extra_t}'
+                acc_exc = sorted({type(t.exception()).__name__ for t in fn.accept_tasks.values()
+                                  if t.done() and not t.cancelled() and t.exception() is not None})
                 facts = {'res': res, 'reg': reg, 'tw': tw, 'rw': rw_n, 'aw': aw_n, 'open': sorted(op),
+                         'accept_exceptions': acc_exc,
+                         'reg_initialised': all(c.connection_state != PeerConnectionState.AWAITING_INIT
+                                                and c.state == ConnectionState.CONNECTED for c in net.peer_connections),
                          'other_registered': len(others), 'extra_tickets': extra_t,
                          'children_pending': sorted(t.get_name().split('-')[0] for t in asyncio.all_tasks(loop)
                                                     if not t.done() and (t.get_name().startswith('direct-connect-')
@@ -228,29 +270,50 @@ def _run_impl(case: dict) -> dict:
             line, facts = snapshot()
             lines.append(line)
             facts_l.append(facts)
-            for op in case['ops']:
+            exec_idx: list = []
+            for j_, op in enumerate(case['ops']):
                 name = op[0]
                 arg = op[1] if len(op) > 1 else None
-                if not enabled(name, arg):
+                if name == 'pair':
+                    # two completions inside ONE settle: A, `gap` loop iterations, B  (coincidence family, monitor only)
+                    _, a, b, gap = op
+                    if not enabled(a[0], a[1] if len(a) > 1 else None):
+                        skipped.append(op)
+                        continue
+                    do_op(a[0], a[1] if len(a) > 1 else None)
+                    for _ in range(gap):
+                        await asyncio.sleep(0)
+                    if enabled(b[0], b[1] if len(b) > 1 else None):
+                        do_op(b[0], b[1] if len(b) > 1 else None)
+                    else:
+                        op = ['pair', a, ['-'], gap]
+                elif not enabled(name, arg):
                     skipped.append(op)
                     continue
-                do_op(name, arg)
+                else:
+                    do_op(name, arg)
                 await settle()
                 for k in fn.attempts:
                     if k != SERVER_ADDR and k not in dialed:
                         dialed.append(k)
                 line, facts = snapshot()
                 executed.append(op)
+                exec_idx.append(j_)
                 lines.append(line)
                 facts_l.append(facts)
             dconn = [c for c in [*net.peer_connections] if not c.incoming]
             keep = (bus, net, srv_task)  # noqa: F841
-            return {'executed': executed, 'lines': lines, 'facts': facts_l, 'skipped': skipped,
-                    'dialed': [list(k) for k in dialed], 'expected_dial': [PEER_IP, port], 'hang': hang['hit'],
+            return {'executed': executed, 'exec_idx': exec_idx, 'lines': lines, 'facts': facts_l, 'skipped': skipped,
+                    'dialed': [list(k) for k in dialed], 'expected_dial': [PEER_IP, port], 'hang': hang['hit'], 'sites': sorted(audit.sites),
                     'dial_obfuscated': [bool(c.obfuscated) for c in dconn],
                     'loop_exceptions': [e for e in loop.exceptions if e.get('type') not in (None, 'CancelledError', '_Hang')]}
         finally:
             fn.uninstall()
+            audit.close()
+            try:
+                bus._events.clear()      # drop the bus' weak references now, not at interpreter exit
+            except Exception:
+                pass
 
     logging.disable(logging.CRITICAL)
     try:
@@ -276,13 +339,106 @@ def _model_lines(case: dict, executed: list) -> list[str]:
 # monitor
 # --------------------------------------------------------------------------------------------
 
+def _offered(case: dict) -> list:
+    """What the SCHEDULE offers the request, op by op — from the case alone, independent of the implementation and of
+    the Lean model: which attempt is (still) able to succeed and what the request therefore has to do.
+    Returns, per proposed op, (required outcome so far, which attempt succeeded): outcome in
+    pending | returned | raised | cancelled.  Reading of the property: the direct attempt can succeed iff an address
+    with a usable port is known and the connect + PeerInit write succeed; the indirect attempt can succeed iff
+    ConnectToPeer can be written and the peer pierces before CannotConnect / the timeout; fallback mode makes the
+    indirect attempt when the direct one has failed, race mode from the start; first success wins."""
+    race = case['mode'] == 'race'
+    srv_dead = bool(case['srvFail'])
+    d = 'addr' if case['lookup'] else 'opening'
+    i = ('dead' if srv_dead else 'waiting') if race else 'ns'
+    fin, who = None, None
+    out = []
+
+    def direct_dead():
+        nonlocal d, i, fin
+        d = 'dead'
+        if not race:
+            i = 'dead' if srv_dead else 'waiting'
+        if i == 'dead':
+            fin = 'raised'
+
+    for op in case['ops']:
+        name = op[0]
+        arg = op[1] if len(op) > 1 else None
+        if fin is None:
+            if name == 'addrReply' and d == 'addr':
+                if arg == 'valid':
+                    d = 'opening'
+                else:
+                    direct_dead()
+            elif name == 'connectOk' and d == 'opening':
+                if arg:
+                    d, fin, who = 'ok', 'returned', 'direct'
+                else:
+                    direct_dead()
+            elif name in ('connectRefused', 'connectTimeout') and d == 'opening':
+                direct_dead()
+            elif name == 'pierce' and i == 'waiting':
+                i, fin, who = 'ok', 'returned', 'indirect'
+            elif name in ('cannotConnect', 'indirectTimeout') and i == 'waiting':
+                i = 'dead'
+                if not race or d == 'dead':
+                    fin = 'raised'
+            elif name == 'cancelRequest':
+                fin = 'cancelled'
+        out.append((fin or 'pending', who))
+    return out
+
+
 def _monitor(case: dict, impl: dict) -> list[Violation]:
     vs: list[Violation] = []
     full_case = dict(case)
     full_case['ops'] = impl['executed']
 
-    def add(sig, what, observed=None, required=None):
-        vs.append(Violation(sig, what, full_case, observed=observed, required=required))
+    def add(sig, what, observed=None, required=None, upto=None):
+        c = full_case
+        if upto is not None:
+            c = dict(case)
+            c['ops'] = case['ops'][:upto + 1]
+        vs.append(Violation(sig, what, c, observed=observed, required=required))
+
+    # --- the request does what the schedule's offers require (not for the coincidence family: there either of two
+    #     simultaneous outcomes may win)
+    if not case['kind'].startswith('coincidence') and 'exec_idx' in impl:
+        offered = _offered(case)
+        final_req, final_who = offered[-1] if offered else ('pending', None)
+        # result of the real call after proposal j = at the last executed op with proposal index <= j
+        res_at, k = [], 0
+        for j in range(len(case['ops'])):
+            while k < len(impl['exec_idx']) and impl['exec_idx'][k] <= j:
+                k += 1
+            res_at.append(impl['facts'][k]['res'])        # facts[0] is the state before any op
+        flagged = False
+        for j, ((req_j, who_j), res) in enumerate(zip(offered, res_at)):
+            if flagged:
+                break
+            got = 'returned' if res in ('D', 'I') else res
+            if req_j == 'returned' and got != 'returned':
+                flagged = True
+                sig = (f'C11-raised-although-{who_j}-possible' if got == 'raised' else 'C11-not-returned')
+                add(sig, f'{case["mode"]} mode, after {case["ops"][j]}: the {who_j} attempt succeeded according to the '
+                    f'schedule (address usable / ConnectToPeer writable, the peer {"accepted the connection and PeerInit" if who_j == "direct" else "pierced before CannotConnect and the timeout"}), '
+                    f'the request was not cancelled, but create_peer_connection is {res}', impl['lines'][min(k, len(impl['lines']) - 1)],
+                    'returns an initialised, usable connection whenever the direct or the indirect attempt can succeed',
+                    upto=j)
+            elif req_j == 'pending' and got == 'raised' and final_req == 'returned':
+                flagged = True
+                jj = next(x for x, (r, _) in enumerate(offered) if r == 'returned')
+                add(f'C11-raised-although-{final_who}-possible',
+                    f'{case["mode"]} mode, after {case["ops"][j]}: create_peer_connection raised although the {final_who} '
+                    f'attempt can still succeed (the schedule lets it succeed at {case["ops"][jj]}); '
+                    + ('ConnectToPeer was never sent' if final_who == 'indirect' and 'ctp=0' in impl['lines'][-1] else
+                       'it gave up early'), impl['lines'][-1],
+                    'raises only when neither attempt can succeed', upto=jj)
+            elif req_j == 'raised' and got == 'returned':
+                flagged = True
+                add('C11-returned-although-nothing-worked', f'after {case["ops"][j]}: both attempts failed according to the '
+                    f'schedule but the request returned {res}', None, 'PeerConnectionError', upto=j)
 
     # what the environment offered while the request was pending (independent of the model)
     direct_ok = indirect_ok = False
@@ -307,7 +463,11 @@ def _monitor(case: dict, impl: dict) -> list[Violation]:
         if ctp_seen:
             indirect_started = True
         res = f['res']
-        if res.startswith('exc:') or res.endswith('!unusable'):
+        if res.startswith('exc:'):
+            add('C11-bad-result', f'after {op} ({case["mode"]} mode): create_peer_connection let {res[4:]} escape instead of '
+                'raising PeerConnectionError (the only failure its callers handle)', impl['lines'][n],
+                'an initialised, usable connection of the requested type, or PeerConnectionError')
+        elif res.endswith('!unusable'):
             add('C11-bad-result', f'after {op}: create_peer_connection ended with {res}', impl['lines'][n],
                 'an initialised, usable connection of the requested type, or PeerConnectionError')
         if res == 'raised' and (direct_ok or indirect_ok):
@@ -324,9 +484,14 @@ def _monitor(case: dict, impl: dict) -> list[Violation]:
             if f['extra_tickets']:
                 left.append('foreign ticket waiters')
             returned = 1 if res in ('D', 'I') else 0
-            if len(f['reg']) > returned or (returned and f['other_registered']):
+            # coincidence family only: a request cancelled in the few loop iterations after an attempt already
+            # returned its initialised, announced (PeerInitializedEvent) connection keeps that winner — the race
+            # is then gathering the loser; distributed._set_parent relies on it (fixes/C11-attempt-cleanup.md)
+            kept = (1 if case['kind'].startswith('coincidence') and res == 'cancelled' and f.get('reg_initialised')
+                    and len(f['reg']) == 1 and f['reg'] == f['open'] else 0)
+            if len(f['reg']) > returned + kept or (returned and f['other_registered']):
                 left.append(f"registered connections {f['reg']} besides the returned one")
-            if len(f['open']) > returned:
+            if len(f['open']) > returned + kept:
                 left.append(f"open sockets {f['open']} besides the returned one")
             if f['children_pending']:
                 left.append(f"attempt tasks still running: {f['children_pending']}")
@@ -351,6 +516,10 @@ def _monitor(case: dict, impl: dict) -> list[Violation]:
         if impl['dialed'][0] != impl['expected_dial'] or len(impl['dialed']) > 1:
             add('C11-select-port', f"dialled {impl['dialed']}", impl['dialed'],
                 f"{impl['expected_dial']} (an available port, the preferred kind when both exist)")
+    acc = sorted({x for f in impl['facts'] for x in f.get('accept_exceptions', [])})
+    if acc:
+        add('C11-internal-error', f'the accept handler of a piercing connection died with {acc} (the connection stays '
+            'initialised and registered, nobody owns it)', acc, 'a pierce nobody waits for any more is disconnected')
     if impl.get('hang'):
         add('C11-hang', 'the library spun without suspending', impl['lines'][-2:])
     for e in impl.get('loop_exceptions', []):
@@ -433,6 +602,37 @@ def _grid() -> list[dict]:
     return cases
 
 
+def _coincidence() -> list[dict]:
+    """Two completions inside ONE settle (A, gap loop iterations, B), both orders, gap 0..5: the windows between a
+    waiter being completed / cancelled and its task waking / its removal callback running.  Monitor only — the model's
+    step is one completion to quiescence."""
+    cases = []
+    for mode in ('fallback', 'race'):
+        pres = [[['connectRefused']]] if mode == 'fallback' else [[], [['connectRefused']]]
+        for pre in pres:
+            partners = [['cannotConnect'], ['indirectTimeout'], ['cancelRequest']]
+            if mode == 'race' and not pre:
+                partners += [['connectOk', 1], ['connectOk', 0], ['connectRefused'], ['connectTimeout']]
+            for partner in partners:
+                for a, b in ((['pierce'], partner), (partner, ['pierce'])):
+                    for gap in range(6):
+                        for lookup in (0, 1):
+                            if lookup and gap % 2:
+                                continue
+                            head = ([['addrReply', 'valid']] if lookup else []) + pre
+                            tail = ([['connectRefused']] if mode == 'race' and not pre else []) + LATE
+                            cases.append({'kind': f'coincidence:{mode}:{a[0]}+{b[0]}:gap{gap}', 'mode': mode,
+                                          'lookup': lookup, 'srvFail': 0, 'typ': 'PFD'[gap % 3], 'prefer': gap % 2,
+                                          'ports': [2234, 2235], 'ops': head + [['pair', a, b, gap]] + tail})
+        # two outcomes of the same kind of waiter, and three-way: CannotConnect + timeout + pierce
+        for gap in range(4):
+            pre = [['connectRefused']] if mode == 'fallback' else []
+            cases.append({'kind': f'coincidence:{mode}:cannotConnect+indirectTimeout:gap{gap}', 'mode': mode, 'lookup': 0,
+                          'srvFail': 0, 'typ': 'P', 'prefer': 0, 'ports': [2234, 0],
+                          'ops': pre + [['pair', ['cannotConnect'], ['indirectTimeout'], gap], ['pierce'], ['connectRefused']]})
+    return cases
+
+
 def _gen_random(rng: random.Random) -> dict:
     mode = rng.choice(['fallback', 'race'])
     lookup = rng.random() < 0.5
@@ -459,6 +659,16 @@ def _eval_case(case):
 
 
 WITNESSES = [
+    {'kind': 'witness:fallback-no-usable-port-then-pierce', 'mode': 'fallback', 'lookup': 1, 'srvFail': 0, 'typ': 'P',
+     'prefer': 0, 'ports': [2234, 0], 'ops': [['addrReply', 'noPort'], ['pierce']]},
+    {'kind': 'witness:fallback-no-address-then-pierce', 'mode': 'fallback', 'lookup': 1, 'srvFail': 0, 'typ': 'F',
+     'prefer': 1, 'ports': [2234, 2235], 'ops': [['addrReply', 'noAddr'], ['pierce']]},
+    {'kind': 'witness:race-no-usable-port-then-pierce', 'mode': 'race', 'lookup': 1, 'srvFail': 0, 'typ': 'P',
+     'prefer': 0, 'ports': [0, 2235], 'ops': [['addrReply', 'noPort'], ['pierce']]},
+    {'kind': 'witness:fallback-direct-refused-indirect-times-out', 'mode': 'fallback', 'lookup': 0, 'srvFail': 0,
+     'typ': 'P', 'prefer': 0, 'ports': [2234, 0], 'ops': [['connectRefused'], ['indirectTimeout'], ['pierce']]},
+    {'kind': 'witness:race-direct-refused-indirect-times-out', 'mode': 'race', 'lookup': 1, 'srvFail': 0,
+     'typ': 'F', 'prefer': 1, 'ports': [2234, 2235], 'ops': [['addrReply', 'noPort'], ['indirectTimeout'], ['cannotConnect']]},
     {'kind': 'witness:race-direct-wins-late-pierce', 'mode': 'race', 'lookup': 0, 'srvFail': 0, 'typ': 'P', 'prefer': 0,
      'ports': [2234, 0], 'ops': [['connectOk', 1], ['pierce']]},
     {'kind': 'witness:race-indirect-wins-direct-parked', 'mode': 'race', 'lookup': 0, 'srvFail': 0, 'typ': 'P',
@@ -467,6 +677,16 @@ WITNESSES = [
      'prefer': 0, 'ports': [2234, 0], 'ops': [['connectRefused']]},
     {'kind': 'witness:race-request-cancelled', 'mode': 'race', 'lookup': 0, 'srvFail': 0, 'typ': 'P', 'prefer': 0,
      'ports': [2234, 0], 'ops': [['cancelRequest'], ['pierce']]},
+]
+
+
+CO_WITNESSES = [
+    {'kind': 'coincidence:witness:cannot-connect-and-pierce', 'mode': 'fallback', 'lookup': 0, 'srvFail': 0, 'typ': 'P',
+     'prefer': 0, 'ports': [2234, 0], 'ops': [['connectRefused'], ['pair', ['cannotConnect'], ['pierce'], 1]]},
+    {'kind': 'coincidence:witness:pierce-on-cancelled-waiter', 'mode': 'fallback', 'lookup': 0, 'srvFail': 0, 'typ': 'P',
+     'prefer': 0, 'ports': [2234, 0], 'ops': [['connectRefused'], ['pair', ['indirectTimeout'], ['pierce'], 1]]},
+    {'kind': 'coincidence:witness:race-won-while-peer-pierces', 'mode': 'race', 'lookup': 0, 'srvFail': 0, 'typ': 'P',
+     'prefer': 0, 'ports': [2234, 0], 'ops': [['pair', ['connectOk', 1], ['pierce'], 0]]},
 ]
 
 
@@ -500,6 +720,8 @@ class C11(Property):
         rng = random.Random(f'C11-{seed}')
         n = (6000 if tier == 'quick' else 120000) * widen
         cases = list(WITNESSES) + _grid() + [_gen_random(rng) for _ in range(n)]
+        n_model = len(cases)
+        cases += CO_WITNESSES + _coincidence()          # monitor only
         back = [{'kind': c['kind'], 'c10case': c} for c in _c10._grid()
                 if c['kind'].startswith('back') or (c['kind'].startswith('direct') and any(
                     o[0] == 'at' and o[2] == 'cancelAttempt' for o in c['ops']))]
@@ -511,7 +733,7 @@ class C11(Property):
         sel_lines = [f'selectPort {p} {a} {b}' for p in (0, 1) for a in (0, 2234) for b in (0, 2235) if a or b]
         if model_ok:
             lines, spans = [], []
-            for c, io in zip(cases, impl):
+            for c, io in zip(cases[:n_model], impl):
                 ls = _model_lines(c, io['executed'])
                 spans.append((len(lines), len(ls)))
                 lines += ls
@@ -526,6 +748,8 @@ class C11(Property):
                     res.disagreements.append(Disagreement({'selectPort': l}, f'{ep} {int(eo)}', o, 'select_port table'))
         else:
             res.model_available = False
+        res.disagreements += _c10.site_breaks(cases + back, impl)
+        res.count('await-sites-seen', len({x for io in impl for x in io.get('sites', [])}))
         for i, c in enumerate(cases):
             io = impl[i]
             res.evaluations += 1
@@ -534,13 +758,15 @@ class C11(Property):
             res.count('ops-skipped(not enabled)', len(io['skipped']))
             for op in io['executed']:
                 res.count('op:' + op[0])
+                if op[0] == 'pair':
+                    res.count(f'pair:{op[1][0]}+{op[2][0]}')
             finals = [f['res'] for f in io['facts']]
             res.count('result:' + finals[-1])
             res.count(f"ports:clear={int(bool(c['ports'][0]))},obfs={int(bool(c['ports'][1]))},prefer={c['prefer']}")
             done_at = next((j for j, r in enumerate(finals) if r != 'pending'), None)
             if (done_at is not None and len(finals) > done_at + 1) or 'ctp=1' in io['lines'][-1]:
                 res.nontrivial_keys.add(common.sha([c['mode'], c['lookup'], c['srvFail'], io['executed']]))
-            if model is not None:
+            if model is not None and i < n_model:
                 res.traces_validated += 1
                 if model[i] != io['lines']:
                     k = next((j for j, (a, b) in enumerate(zip(model[i], io['lines'])) if a != b),
